@@ -10,6 +10,10 @@ use lipe_find_parser::ast::*;
 
 pub fn tree_case(seed: u64, i: u64) -> Expression {
     let mut r = Rng::for_case(seed, "trees", i);
+    if i % 4 == 3 {
+        // same-field comparison pairs with boundary constants (incl. counts no other stream dares)
+        return pair_case(&mut r, true);
+    }
     let leaves = 1 + r.usize(5);
     gen_tree(&mut r, leaves, &mut |r| match r.below(12) {
         0 => Expression::Positional(PositionalOption::XDev),
